@@ -25,6 +25,8 @@ pub enum Stdin {
     Dir,
 }
 
+static TEMPFILE_SEQ: std::sync::atomic::AtomicU64 = std::sync::atomic::AtomicU64::new(0);
+
 #[derive(Clone, Copy, Debug, PartialEq, Eq)]
 pub enum Stdout {
     /// captured through a pipe (default)
@@ -33,6 +35,8 @@ pub enum Stdout {
     DevFull,
     /// a pipe whose read end is already closed: every write fails with EPIPE
     ClosedPipe,
+    /// a regular file (its content is read back as the captured output)
+    TempFile,
 }
 
 #[derive(Clone, Debug)]
@@ -50,6 +54,8 @@ pub struct Spec {
     pub stdout: Stdout,
     /// the same fault modes for stderr (Capture = captured through a pipe)
     pub stderr: Stdout,
+    /// file-mode creation mask of the child
+    pub umask: Option<u32>,
 }
 
 #[derive(Clone, Debug, PartialEq, Eq)]
@@ -121,9 +127,22 @@ pub fn run(spec: &Spec) -> Outcome {
         c.env(k, v);
     }
     c.current_dir(&spec.cwd);
+    let mut stdout_file: Option<PathBuf> = None;
     match spec.stdout {
         Stdout::Capture => {
             c.stdout(Stdio::piped());
+        }
+        Stdout::TempFile => {
+            let p = std::env::temp_dir().join(format!("zsim-stdout-{}-{}", std::process::id(), TEMPFILE_SEQ.fetch_add(1, Ordering::SeqCst)));
+            match std::fs::File::create(&p) {
+                Ok(f) => {
+                    c.stdout(Stdio::from(f));
+                    stdout_file = Some(p);
+                }
+                Err(_) => {
+                    c.stdout(Stdio::piped());
+                }
+            }
         }
         Stdout::DevFull => match std::fs::OpenOptions::new().write(true).open("/dev/full") {
             Ok(f) => {
@@ -145,7 +164,7 @@ pub fn run(spec: &Spec) -> Outcome {
         },
     }
     match spec.stderr {
-        Stdout::Capture => {
+        Stdout::Capture | Stdout::TempFile => {
             c.stderr(Stdio::piped());
         }
         Stdout::DevFull => match std::fs::OpenOptions::new().write(true).open("/dev/full") {
@@ -192,12 +211,16 @@ pub fn run(spec: &Spec) -> Outcome {
             }
         },
     }
-    if spec.rm_cwd || spec.mem_limit.is_some() {
+    if spec.rm_cwd || spec.mem_limit.is_some() || spec.umask.is_some() {
         let cwd_c = std::ffi::CString::new(spec.cwd.as_os_str().as_encoded_bytes().to_vec()).ok();
         let rm = spec.rm_cwd;
         let lim = spec.mem_limit;
+        let um = spec.umask;
         unsafe {
             c.pre_exec(move || {
+                if let Some(m) = um {
+                    libc::umask(m as libc::mode_t);
+                }
                 if let Some(l) = lim {
                     let rl = libc::rlimit { rlim_cur: l as libc::rlim_t, rlim_max: l as libc::rlim_t };
                     libc::setrlimit(libc::RLIMIT_AS, &rl);
@@ -265,7 +288,11 @@ pub fn run(spec: &Spec) -> Outcome {
     }
     let st = child.wait();
     watch().lock().unwrap().remove(&pid);
-    let stdout = t_out.join().unwrap_or_default();
+    let mut stdout = t_out.join().unwrap_or_default();
+    if let Some(p) = stdout_file {
+        stdout = std::fs::read(&p).unwrap_or_default();
+        let _ = std::fs::remove_file(&p);
+    }
     let stderr = t_err.join().unwrap_or_default();
     let elapsed = t0.elapsed();
     let status = match st {
